@@ -21,7 +21,8 @@ from vk.ddmin import minimise_text
 LEVEL = 'exploration'
 RULE = ('(a) exhaustive: every string of <=k tokens (k=3 quick, 4 thorough) over a 27-token alphabet, '
         'joined by blanks (the alphabet contains a line break, so ASI and restricted productions are '
-        'enumerated); (b) random derivations of the Annex A grammar, one grammar alternative forced per '
+        'enumerated); (a2) every string of <=4 (thorough 5) characters over 0 1 7 8 9 . e x a - + as a numeric spelling, a backslash '
+        'followed by every ASCII character and 12 others in both kinds of string literal, identifiers spelled with 28 kinds of escape; (b) random derivations of the Annex A grammar, one grammar alternative forced per '
         'case round-robin, rendered in 5 layouts; (c) single-token mutations of (b); (d) corpus. '
         'distinct = distinct input text; non-trivial = at least 2 tokens (enumeration) / at least 8 tokens '
         '(derivations and mutants).')
@@ -30,7 +31,7 @@ ASSUMPTIONS = ['refjs (recursive-descent ES5.1 front end written from ECMA-262 5
                'early errors are not checked by either side; FunctionDeclaration is admitted as a Statement; '
                'Annex B forms and escaped identifiers are counted oracle_uncertain, never violations']
 BUDGET_S = {'quick': 75, 'thorough': 900}
-REQUIRED_HITS = ['parse', 'refjs', 'production_reduced', 'parser_variant', 'multiline_token', 'string_escape']
+REQUIRED_HITS = ['parse', 'refjs', 'production_reduced', 'parser_variant', 'multiline_token', 'string_escape', 'numeric_spelling']
 FLOOR = {'quick': 5000, 'thorough': 60000}
 
 ALPHABET = ['a', '1', "'s'", '/', '(', ')', '{', '}', '[', ']', ';', ',', ':', '?', '.', '=', '+', '++',
@@ -298,6 +299,16 @@ def run(ctx):
             for text in work.multiline_token_texts():
                 check_text(ctx, text, 'multiline_token', 9, 8)
                 ctx.hit('multiline_token')
+        # numeric literals: every string of up to 4 (thorough: 5) characters over 0 1 7 8 9 . e x a - + as the right side of an
+        # assignment - which spellings are one literal, which are two tokens, which are nothing (7.8.3; the character after a
+        # literal must not be a digit or an identifier start)
+        idx = 0
+        for L in range(1, ctx.pick(4, 5) + 1):
+            for combo in itertools.product('01789.exa-+', repeat=L):
+                idx += 1
+                if idx % ctx.nshards == ctx.shard:
+                    check_text(ctx, 'x = %s;' % ''.join(combo), 'numeric_spelling', 4, 4)
+                    ctx.hit('numeric_spelling')
         # a backslash in a string literal followed by every ASCII character and a selection of others
         for idx, text in enumerate(work.string_escape_texts()):
             if idx % ctx.nshards == ctx.shard:
